@@ -128,7 +128,7 @@ func (e *Engine) invoke(g *Goroutine, cl *Closure, args []Value, callSite ssa.Va
 		}
 		return true
 	}
-	e.tracef("call %s", cl.Fn)
+	e.tracef("g%d call %s", g.id, cl.Fn)
 	nf := e.pushFrame(g, cl, args, callSite)
 	nf.isDefer = isDefer
 	nf.panicDefer = panicDefer
